@@ -706,7 +706,8 @@ class C14(Check):
             "of 2 expressions with an unrenderable leaf (must fail every time and leave the tables "
             "consistent), copy(), copy_with_mapped_cses(), copy(<empty list>), copy(<first name "
             "only>)}; invariants of BOTH mappers after every transition, programs "
-            "of all histories of length 3 compiled and run. Non-trivial = "
+            "of all histories of length 3 compiled and run; the pool holds prefixes that look like "
+            "another prefix's numbered names (p, p, p_2, p_1). Non-trivial = "
             "at least one in-range environment; distinct = distinct trees / histories.")
     assumptions = [
         "environments are restricted to the range the statement names: non-negative operands of "
